@@ -26,13 +26,15 @@ LEVEL_TEXT = ("Clause only: the writer's and the reader's tables agree (layouts 
 
 def run(ctx):
     for r, t in [("C14-R1", "id closures go through the marker storage / retrieve_entity / mark"), ("C14-R2", "position i of the data comes from member i"),
-                 ("C14-R3", "one element per (entities, markers) join item"), ("C14-R4", "Entity converts through the id mapping both ways")]:
+                 ("C14-R3", "one element per (entities, markers) join item"), ("C14-R4", "Entity converts through the id mapping both ways"),
+                 ("C14-R5", "saving and loading never delete an entity")]:
         ctx.rule(r, t)
     facts = ctx.xfacts("F")
     r1(ctx, facts)
     r2(ctx, facts)
     r3(ctx, facts)
     r4(ctx, facts)
+    r5(ctx, facts)
     if ctx.tier == "thorough":
         ctx.xfacts("FN")
         r2(ctx, ctx.xfacts("FN"))
@@ -235,3 +237,31 @@ def r4(ctx, facts):
                 why = "" if ok else "argument is self/data: %s, result is returned: %s, callee is the mapping parameter: %s" % (arg_ok, ret_ok, fn_ok)
             ctx.ob("C14-R4", "Entity::%s maps through the id function" % b.trait_item.split("::")[-1], ok, b.loc(), why)
     ctx.floor("C14-R4", "ConvertSaveload methods of Entity", n, 2)
+
+
+DELETERS = ("world::entity::EntitiesRes::delete", "world::entity::Allocator::kill", "world::entity::Allocator::kill_atomic",
+            "world::world_ext::WorldExt::delete_entity", "world::world_ext::WorldExt::delete_entities", "world::world_ext::WorldExt::delete_all")
+
+
+def r5(ctx, facts):
+    """Loading creates entities for unknown markers and updates known ones in place; saving only reads.  Nothing under `saveload` may delete an
+    entity: the entity a record resolves to can be one that existed before the load (merge by marker) or one created early by a forward
+    reference, and the marker storage and the allocator's mapping keep pointing at it (seed C14-i1: `entities.delete(entity)` on the error path of
+    a record, "don't leave it half-initialised" - a later good load re-uses the doomed entity and the next maintain kills it).  Who-may-call rule,
+    expected count zero; the matcher is shown alive by the deleting call sites it finds elsewhere in the crate (the builders' Drop)."""
+    def deleting_calls(b):
+        return [(bb, t) for bb, t in b.real_calls() if (t["callee"].get("path") or "") in DELETERS]
+    elsewhere = sum(len(deleting_calls(b)) for b in facts.all_bodies if not b.path.startswith("saveload::") and "saveload::" not in (b.self_ty or ""))
+    ctx.floor("C14-R5", "entity-deleting call sites seen outside saveload (matcher alive)", elsewhere, 2)
+    bad = []
+    n = 0
+    for b in facts.all_bodies:
+        if not (b.path.startswith("saveload::") or "saveload::" in (b.self_ty or "") or b.path.startswith("<saveload::")):
+            continue
+        n += 1
+        for bb, t in deleting_calls(b):
+            bad.append("%s calls %s at %s" % (b.path, t["callee"]["path"], b.loc(bb)))
+    ctx.ob("C14-R5", "no body under saveload deletes an entity (%d bodies)" % n if False else "no body under saveload deletes an entity", not bad, "",
+           "" if not bad else "; ".join(bad[:3]) + " - the entity may pre-exist the load or be referenced by records already read; its marker and the "
+           "allocator's mapping still name it, and the deletion takes effect at the next maintain")
+    ctx.floor("C14-R5", "saveload bodies examined", n, 30)
